@@ -12,6 +12,7 @@
 import Sky.Ledger.Run
 import Sky.Ledger.Xor
 import Sky.Ledger.AddrIndex
+import Sky.Ledger.Replay
 namespace Sky.Props.C07
 open Sky Sky.Ledger
 
@@ -104,6 +105,31 @@ theorem addr_index_step {s s' : State} {b : Block} (hnd : (s.unspent.map (·.id)
 /-- the empty index over the empty unspent set is exact (the state a fresh database starts from) -/
 example (s : State) (h1 : s.aidx = []) (h2 : s.unspent = []) : AidxOK s := by
   intro a id; rw [h1, h2]; simp [aidxGet, idsOfAddr]
+
+/-- **rebuild**: after EVERY history from the empty database (the first accepted block is the genesis
+block), replaying the stored blocks from an empty database — `Unspents.ProcessBlock` then
+`HistoryDB.ParseBlock` per block, what the start-up rebuilds do — succeeds and yields exactly the unspent set,
+checksum, address index and height, and the complete history (outputs with their spenders, transaction →
+block, address → outputs, address → transactions) the node holds -/
+theorem rebuild_from_blocks_same (cfg : Cfg) (ops : List Op) :
+    ∃ d, replayFrom (emptyDb cfg) (run (emptyDb cfg) ops).chain = .ok d ∧ DerivedEq d (run (emptyDb cfg) ops) := by
+  have h := replayed_after_run (emptyDb cfg) ops (replayed_empty cfg)
+  have hcfg : (run (emptyDb cfg) ops).cfg = cfg := by
+    have := run_induction (fun s => s.cfg = cfg) ops (fun _ => True)
+      (by intro s s' hs h; rw [hs.2.2.2.1]; exact h)
+      (by intro s s' b h _ he; rw [(exec_chain he).2]; exact h)
+      (emptyDb cfg) rfl (by intro _ _; trivial)
+    exact this
+  unfold Replayed at h
+  rw [hcfg] at h
+  revert h
+  cases replayFrom (emptyDb cfg) (run (emptyDb cfg) ops).chain with
+  | error e => intro h; exact h.elim
+  | ok d => intro h; exact ⟨d, rfl, h⟩
+
+/-- the same from any state whose data already equal the replay of its chain -/
+theorem rebuild_same_after_run (s0 : State) (ops : List Op) (h0 : Replayed s0) : Replayed (run s0 ops) :=
+  replayed_after_run s0 ops h0
 
 /-- the state right after genesis (one output, one index row) is exact — the hypothesis of
 `addr_index_exact_after_run` is met by the state every node starts from -/
